@@ -262,6 +262,10 @@ func signedObject(info *types.Info, e ast.Expr) string {
 }
 
 // signingRootCall follows an expression to the ComputeSigningRoot call that produced it (possibly inside a helper).
+// blsTraceOpen: the last signingRootCall stopped at something whose origin it does not read (a parameter, a field, an
+// element it finds no store for) — as opposed to a definite other source (a call that is not ComputeSigningRoot).
+var blsTraceOpen bool
+
 func (t *blsTracer) signingRootCall(pk *packages.Package, fd *ast.FuncDecl, e ast.Expr, at token.Pos, depth int) (*packages.Package, *ast.FuncDecl, *ast.CallExpr) {
 	if depth > 4 {
 		return nil, nil, nil
@@ -277,9 +281,49 @@ func (t *blsTracer) signingRootCall(pk *packages.Package, fd *ast.FuncDecl, e as
 		if rhs, idx := lastDefBefore(info, fd, o, at); rhs != nil && idx == 0 {
 			return t.signingRootCall(pk, fd, rhs, at, depth+1)
 		}
+		// a parameter, a range variable, a multi-value result: where the value comes from is not read here
+		blsTraceOpen = true
+	case *ast.IndexExpr:
+		// roots[k], k a constant, roots a local array or slice: the last `roots[k] = …` before the use
+		aid, ok := ast.Unparen(x.X).(*ast.Ident)
+		tv, okK := info.Types[x.Index]
+		if !ok || !okK || tv.Value == nil {
+			return nil, nil, nil
+		}
+		o := info.ObjectOf(aid)
+		var best *ast.AssignStmt
+		var bestRhs ast.Expr
+		ast.Inspect(fd.Body, func(n ast.Node) bool {
+			as, ok := n.(*ast.AssignStmt)
+			if !ok || as.Pos() >= at || len(as.Lhs) != len(as.Rhs) {
+				return true
+			}
+			for i, l := range as.Lhs {
+				ix, ok := ast.Unparen(l).(*ast.IndexExpr)
+				if !ok {
+					continue
+				}
+				lid, ok := ast.Unparen(ix.X).(*ast.Ident)
+				ltv, okL := info.Types[ix.Index]
+				if !ok || info.ObjectOf(lid) != o || !okL || ltv.Value == nil || ltv.Value.ExactString() != tv.Value.ExactString() {
+					continue
+				}
+				if best == nil || as.Pos() > best.Pos() {
+					best, bestRhs = as, as.Rhs[i]
+				}
+			}
+			return true
+		})
+		if bestRhs != nil {
+			return t.signingRootCall(pk, fd, bestRhs, best.Pos(), depth+1)
+		}
+		blsTraceOpen = true
+	case *ast.SelectorExpr, *ast.StarExpr:
+		blsTraceOpen = true
 	case *ast.CallExpr:
 		f := calleeFunc(info, x)
 		if f == nil {
+			blsTraceOpen = true
 			return nil, nil, nil
 		}
 		if f.Name() == "ComputeSigningRoot" {
@@ -352,8 +396,11 @@ func ruleBLSVerify(c *Ctx) {
 			}
 			// (b) object/domain
 			if sl != nil {
+				blsTraceOpen = false
 				spk, sfd, src := t.signingRootCall(pk, fd, sl.X, call.Pos(), 0)
-				if src == nil || len(src.Args) != 2 {
+				if (src == nil || len(src.Args) != 2) && blsTraceOpen {
+					c.unm(site+".root", call.Pos(), "where the verified message %s comes from is not read (a parameter, a field or an element)", types.ExprString(sl.X))
+				} else if src == nil || len(src.Args) != 2 {
 					c.bad(site+".root", call.Pos(), "the verified message %s does not come from ComputeSigningRoot (no domain separation)", types.ExprString(sl.X))
 				} else {
 					// the root may have been put in a local first
@@ -422,112 +469,79 @@ func ruleBLSVerify(c *Ctx) {
 					}
 				}
 			}
-			// (c) result honoured
+			// (c) result honoured: decided on the control-flow graph. With the verification taken to have FAILED, every
+			// path from it ends in a refusal (an error, false, a verdict other than ACCEPT; the skipped deposit of
+			// process_deposit) or hands the verdict on as the function's result; with it taken to have SUCCEEDED, not
+			// every path does (or the test is inverted).
 			key := site + ".result"
-			par := parents[call]
-			switch p := par.(type) {
-			case *ast.ReturnStmt:
-				c.ok(key, call.Pos(), "result returned to the caller")
-			case *ast.UnaryExpr:
-				if p.Op != token.NOT {
-					c.unm(key, call.Pos(), "result under operator %s", p.Op)
-					break
-				}
-				// find enclosing if; the negated call must be a conjunct of its condition
-				var ifs *ast.IfStmt
-				var cur ast.Node = p
-				for q := parents[cur]; q != nil; cur, q = q, parents[q] {
-					if i2, ok := q.(*ast.IfStmt); ok && i2.Cond == cur {
-						ifs = i2
-						break
-					}
-					if be, ok := q.(*ast.BinaryExpr); ok && be.Op == token.LAND {
-						continue
-					}
-					if _, ok := q.(*ast.ParenExpr); ok {
-						continue
-					}
-					break
-				}
-				if ifs == nil {
-					c.bad(key, call.Pos(), "negated verification result does not govern an if statement")
-				} else if !refusalBlock(info, ifs.Body, fd) {
-					c.bad(key, call.Pos(), "a failed verification does not end the path with an error / false / REJECT")
-				} else {
-					c.ok(key, call.Pos(), "false result refuses")
-				}
-			case *ast.IfStmt:
-				// `if blsu.Verify(...) { ... }`: the branch taken on a VALID signature must not be a refusal
-				if p.Cond == ast.Expr(call) && refusalBlock(info, p.Body, fd) {
-					c.bad(key, call.Pos(), "a valid signature leads to the refusal branch (the test is inverted: valid messages are refused, forged ones pass)")
-				} else {
-					c.unm(key, call.Pos(), "positive-form test")
-				}
-			case *ast.ExprStmt:
-				c.bad(key, call.Pos(), "verification result is discarded")
-			default:
-				// stored in a boolean local, possibly combined (`ok := skip || Verify(...)`): the local must govern a refusal
-				var as *ast.AssignStmt
-				for q := ast.Node(call); q != nil; q = parents[q] {
-					if a, ok := q.(*ast.AssignStmt); ok {
-						as = a
-						break
-					}
-					if _, ok := q.(ast.Stmt); ok {
+			{
+				body := fd.Body
+				var enclosing ast.Node = fd
+				for p := parents[call]; p != nil; p = parents[p] {
+					if fl, ok := p.(*ast.FuncLit); ok {
+						body, enclosing = fl.Body, fl
 						break
 					}
 				}
-				if as == nil || len(as.Lhs) != 1 {
-					c.unm(key, call.Pos(), "result used in %T", par)
-					break
-				}
-				id, ok := as.Lhs[0].(*ast.Ident)
-				if !ok || id.Name == "_" {
-					c.bad(key, call.Pos(), "verification result is discarded")
-					break
-				}
-				obj := info.ObjectOf(id)
-				tested, refuses := false, false
-				ast.Inspect(fd.Body, func(k ast.Node) bool {
-					is, ok := k.(*ast.IfStmt)
-					if !ok || is.Pos() < as.Pos() {
-						return true
-					}
-					for _, leaf := range flattenBool(is.Cond, token.LAND) {
-						if ue, ok := ast.Unparen(leaf).(*ast.UnaryExpr); ok && ue.Op == token.NOT {
-							if lid, ok := ast.Unparen(ue.X).(*ast.Ident); ok && info.ObjectOf(lid) == obj {
-								tested = true
-								if refusalBlock(info, is.Body, fd) {
-									refuses = true
-								}
-							}
-						}
-					}
+				_ = enclosing
+				failed, ok1 := outcomesUnder(info, body, call, false)
+				passed, ok2 := outcomesUnder(info, body, call, true)
+				if !ok1 || !ok2 || len(failed) == 0 {
+					c.unm(key, call.Pos(), "the verification is not on the control-flow graph of its function")
 					return true
-				})
-				switch {
-				case refuses:
-					c.ok(key, call.Pos(), "result kept in %s; `!%s` refuses", id.Name, id.Name)
-				case tested:
-					c.bad(key, call.Pos(), "the verification result is kept in %s, but `!%s` does not end the path with an error / false / REJECT", id.Name, id.Name)
-				default:
-					// returned or handed on?
-					returned := false
-					ast.Inspect(fd.Body, func(k ast.Node) bool {
-						if r, ok := k.(*ast.ReturnStmt); ok {
-							for _, e := range r.Results {
-								if mentionsObj(info, e, obj) {
-									returned = true
-								}
-							}
-						}
-						return true
-					})
-					if returned {
-						c.ok(key, call.Pos(), "result kept in %s and returned", id.Name)
-					} else {
-						c.bad(key, call.Pos(), "the verification result is stored in %s and never tested", id.Name)
+				}
+				refuses := func(o truthOutcome, whenFailed bool) bool {
+					if o.ret == nil {
+						return false
 					}
+					if o.decided != 0 {
+						return o.decided < 0
+					}
+					if !refusalReturn(info, o.ret, fd) {
+						return false
+					}
+					if whenFailed {
+						return true
+					}
+					// on the valid side only what certainly refuses counts: `return store(x)` may well succeed
+					if v := verdictOf(info, o.ret); v != "" {
+						return true
+					}
+					last := ast.Unparen(o.ret.Results[len(o.ret.Results)-1])
+					if id, ok := last.(*ast.Ident); ok && (id.Name == "false" || id.Name == "nil") {
+						return true
+					}
+					if cl, ok := last.(*ast.CallExpr); ok {
+						if f := calleeFunc(info, cl); f != nil && f.Pkg() != nil && (f.Pkg().Path() == "errors" || f.Pkg().Path() == "fmt") {
+							return true
+						}
+					}
+					return false
+				}
+				bad := ""
+				for _, o := range failed {
+					if !refuses(o, true) {
+						if o.ret == nil {
+							bad = "the function runs to its end"
+						} else {
+							bad = "line " + itoa(int64(c.P.Fset.Position(o.ret.Pos()).Line)) + " returns without refusing"
+						}
+						break
+					}
+				}
+				allRefuse := len(passed) > 0
+				for _, o := range passed {
+					if !refuses(o, false) {
+						allRefuse = false
+					}
+				}
+				switch {
+				case bad != "":
+					c.bad(key, call.Pos(), "a failed verification does not end every path with an error / false / REJECT: %s", bad)
+				case allRefuse:
+					c.bad(key, call.Pos(), "a valid signature leads only to refusals (the test is inverted: valid messages are refused, forged ones pass)")
+				default:
+					c.ok(key, call.Pos(), "a failed verification refuses on every path; a valid one does not")
 				}
 			}
 			return true
@@ -549,6 +563,11 @@ func refusalBlock(info *types.Info, b *ast.BlockStmt, fd *ast.FuncDecl) bool {
 	if !ok {
 		return false
 	}
+	return refusalReturn(info, r, fd)
+}
+
+// refusalReturn: the return hands back a non-nil error, false, or a verdict other than ACCEPT.
+func refusalReturn(info *types.Info, r *ast.ReturnStmt, fd *ast.FuncDecl) bool {
 	if v := verdictOf(info, r); v != "" {
 		return v != "ACCEPT"
 	}
